@@ -90,7 +90,7 @@ func TestVerif_C10_Breaker(t *testing.T) {
 			res := c10Do(p, script, false, -1, c10PanicSite)
 			r.Eval(1)
 			if res.Watchdog {
-				r.Inconclusive("harness watchdog (30 s) fired in breaker sequence")
+				r.Inconclusive("harness watchdog (120 s) fired in breaker sequence")
 				okCase = false
 				break
 			}
